@@ -13,7 +13,9 @@ MANIFEST = dict(
     technique="Lean 4 proof over a parametric model + constants regenerated from source + exhaustive differential correspondence run under virtual time",
     design="5/C03",
 )
-GEN = ["Versions", "VersionLib"]
+GEN = ["Versions"]
+SUPP_GEN = ["VersionLib"]
+SUPP_THEOREMS = ["c03_helpers_are_aliases"]  # Props/C03Supp.lean: INFO only
 THEOREMS = [
     "c03_translated",
     "c03_proposed_spec",
@@ -30,7 +32,6 @@ THEOREMS = [
     "c03_refusing_writer_never_success",
     "c03_sequence_each_call_fresh",
     "c03_connections_independent",
-    "c03_helpers_are_aliases",
     "c03_default_list",
 ]
 RULE = (
@@ -803,6 +804,7 @@ class HelperAliases(Suite):
     a difference is recorded in the evidence notes, it is not an obligation of the property)."""
 
     name = "helper-aliases"
+    supplementary = True
 
     def cases(self, ctx, budget):
         self._ctx = ctx
@@ -821,11 +823,7 @@ class HelperAliases(Suite):
         else:
             bad = (o["alias_supported"] != m["supported"] or o["alias_valid"] != m["valid"] or o["alias_batching"] != o["batching"]
                    or not o["alias_batching_warned"])
-        if bad:
-            self._ctx.dist["supplementary-divergence/" + self.name] += 1
-            if len(self._ctx.notes) < 10:
-                self._ctx.notes.append(f"supplementary divergence ({self.name}): input {canon(case)[:200]} real {canon(o)[:400]} model {canon(m)[:300]}")
-        return None
+        return "a helper differs from the function it names" if bad else None
 
     def kind(self, case, o):
         return "helper-aliases/" + case["op"]
